@@ -1,8 +1,7 @@
 (* C15, concurrent part — racing reverts of one transaction.  Statements only (model Ledger/Conc.v).
-   The at-most-one-winner statement  forall ... sched, NoDup (g_revs (sched_outcome hash prefix writers sched))
-   (g_revs: one entry per committed revert, naming its target) is checked by exhaustive schedule exploration against the
-   real stack (TIE-S) and evaluated on the model below; its all-schedules proof (row lock of the UPDATE + re-evaluation
-   of "reverted_at IS NULL" on the newest version) is not done. *)
+   g_revs: one entry per revert mark made visible by a COMMIT, naming the reverted transaction.  Proved for ALL schedules
+   (ConcProofs.tx_ok): the UPDATE takes the row lock only on a row whose committed reverted_at is null and that nobody has
+   locked; a waiter re-evaluates the predicate on the newest version; so a transaction is reverted at most once. *)
 From Coq Require Import List ZArith String Bool Lia.
 From LV Require Import Ledger.Conc Ledger.ConcProofs.
 Import ListNotations.
@@ -24,11 +23,22 @@ Example C15_conc_example :
   nth_error (g_ev g) 1 = Some (1%nat, LRev, SBlocked).
 Proof. vm_compute. repeat split; reflexivity. Qed.
 
+(* at most one committed revert of a transaction, for ALL schedules and any number of racers *)
+Theorem C15_conc_once : forall hash prefix writers sched, NoDup (g_revs (sched_outcome hash prefix writers sched)).
+Proof. intros. apply (tx_revs _ _ _ (outcome_tx_inv hash prefix writers sched)). Qed.
+Print Assumptions C15_conc_once.
+(* and a reverted target stays marked: every id in g_revs names a row whose committed reverted_at is set *)
+Theorem C15_conc_marked : forall hash prefix writers sched t,
+  let g := sched_outcome hash prefix writers sched in In t (g_txs g) -> In (t_id t) (g_revs g) -> t_rev t = true.
+Proof. intros hash prefix writers sched t g. apply (tx_rev_marked _ _ _ (outcome_tx_inv hash prefix writers sched)). Qed.
+Print Assumptions C15_conc_marked.
+Theorem C15_conc_once_from : forall g sched, tx_inv g -> NoDup (g_revs (run g sched)).
+Proof. intros g sched H. apply (tx_revs _ _ _ (tx_inv_all_schedules g sched H)). Qed.
+Print Assumptions C15_conc_once_from.
+
 Theorem C15_conc_ids_unique : forall hash prefix writers sched,
   NoDup (map t_id (g_txs (sched_outcome hash prefix writers sched))).
 Proof.
-  intros. assert (H : ids_inv (sched_outcome hash prefix writers sched)).
-  { apply ids_unique_all_schedules. apply ids_inv_reseat. apply ids_unique_all_schedules. apply ids_inv_init. }
-  destruct H as [[A _] _]. exact A.
+  intros. apply (tx_ids _ _ _ (outcome_tx_inv hash prefix writers sched)).
 Qed.
 Print Assumptions C15_conc_ids_unique.
